@@ -73,7 +73,7 @@ var (
 	chains   = []string{ref2, ref}
 	denoms   = []string{world.BondDenom, otherDenom}
 	ownSale  = map[string]string{ref: saleContract, ref2: saleContract2}
-	contName = map[string]string{saleContract: "c-eth", saleContract2: "c-bnb", otherContract: "other"}
+	contName = map[string]string{saleContract: "c-eth", saleContract2: "c-bnb", otherContract: "other", "": "empty", "0x": "0x"}
 )
 
 var errInjected = errors.New("verif: injected collaborator failure")
@@ -236,7 +236,7 @@ type ghost struct {
 	Act        map[string]act    // client name -> activation
 	Paid       map[string]int64  // "funder/denom" -> paid into escrow since the initial state
 	Grants     map[string]bool   // client names holding the sale fee grant
-	Nonce      map[string]uint64 // chain -> skyway events voted so far == expected oracle cursor
+	Nonce      map[string]uint64 `json:"-"` // chain -> skyway events voted so far == expected oracle cursor (not part of the state identity)
 	Funders    bool
 	Feegranter bool
 	Contracts  map[string]bool // chains whose own sale contract the last governance proposal authorised
@@ -434,14 +434,14 @@ func run(r *report.Run, shard, nshards int, replayFile string) {
 
 	r.Rule = "BFS from 5 (thorough 6) base states {sale fully configured × funder balances (first poor + second rich | exactly enough | none | first rich + second poor), fee granter never configured, two chains with a sale contract each} over " +
 		"AddLicence(funder∈{F1,F2}, client∈{fresh1,fresh2,account holder U,licensed L0}, amount∈{0,1,5}, months∈{0,1,24}, denom∈{ugrain,uother}) as signed MsgAddLightNodeClientLicense txs; " +
-		"SaleQuorum(chain, client, amount∈{0,1,5} GRAIN, reporting contract∈{the chain's own, another}) = three validators' signed MsgLightNodeSaleClaim + skyway.EndBlocker; " +
+		"SaleQuorum(chain, client, amount∈{0,1,5} GRAIN, reporting contract∈{the chain's own, another, empty string, \"0x\"}; the empty / blank ones on both chains in every base state, i.e. also on chains with no configured contract) = three validators' signed MsgLightNodeSaleClaim + skyway.EndBlocker; " +
 		"Register(who) / Register with creator≠first signer / Register for a licensee signed by someone else, alone and behind a harmless first message of the same tx; Auth(who); " +
 		"one base state with every client-naming operation (AddLicence, SaleQuorum, Register, Auth) under every rendering of the address (canonical, ALL-UPPER-CASE, mixed case as must-reject control) in all buy-under-X / activate-under-Y combinations; Tick(+40 d); governance: funders on/off, sale-contract set replaced through the real proposal handler " +
 		"(one chain: on/off; two-chain base state: every subset of {bnb-main, eth-main}, sales reported from both chains by either contract); " +
 		"every AddLicence, SaleQuorum and Register is also executed once per collaborator call (bank, account, feegrant keeper) with that call failing; " +
 		"oracle in every state, per denom: escrow == Σ unactivated licences paid in that denom, licence / client / account-kind / vesting-schedule (original vesting = the licensed coin) / funder-balance / fee-grant sets equal the ledger, " +
 		"stored sale contracts == the set the last proposal authorised; a sale from a chain / contract outside that set changes nothing; " +
-		"a state is distinct by (paloma, bank, feegrant stores, canonical accounts, oracle cursors of both chains, block time, ledger)"
+		"a state is distinct by (paloma, bank, feegrant stores, canonical accounts, block time, ledger)"
 	r.Assumptions = []string{
 		"tx atomicity re-implemented as in baseapp.runTx (ante cache, msg cache, panic → tx error); fees are zero in this app (TxFeeSkipper), so the licensed address pays nothing and needs only the base account that licence creation gives it: Register/Auth are really signed txs by that address",
 		"fault-injected variants run the same message through keeper.NewMsgServerImpl(faultyPalomaKeeper) in a tx-like cache (ante not re-run), resp. skyway.EndBlocker(faultySkywayKeeper) after the real votes; they are evaluated on forks of the pre-state with the same step oracle and invariant and are not extended further; failure answers of calls without an error result: HasBalance=false, HasAccount=true, GetAccount=nil, NewAccount/SetAccount panic",
@@ -453,7 +453,7 @@ func run(r *report.Run, shard, nshards int, replayFile string) {
 		"alphabets: 'renderings' (one base state) = one creating pair by F2 and 1-GRAIN sales under the three renderings, Register / Auth under the three renderings; 'full' = amounts × months in ugrain plus 4 (amount, months) pairs in uother, sales on eth-main by its own / another contract; 'reduced' = every amount, month value and denom but 4 creating and 2 must-be-rejected pairs; 'contracts' (two-chain base state only) = one creating pair, 1-GRAIN sales from both chains by either chain's contract, governance over all contract subsets",
 		"address renderings: licence and client records are keyed by the address string as supplied, accounts by the decoded bytes; the oracle is evaluated on ACCOUNTS: at most one pending licence per account, an activation removes the pending licence record of that account whatever rendering it is keyed by, escrow == Σ of the stored pending records; under which string the client record is stored is not prescribed. Messages whose creator is a non-canonical rendering are run at the application's message server in a tx-like cache (RegisterMsgServer / AuthMsgServer): the ante chain admits such a creator only for a signer holding a fee grant from that account (delegation is not in the alphabet); the really signed variant is explored too and is rejected by ante",
 		"'activated only by the licensed address itself' through the ante chain: a successful tx that activates X's licence must be signed by X (no fee grants from licensees exist in the alphabet), also when the activation is the second message behind a harmless first one (MsgAddStatusUpdate of the signer)",
-		"SaleQuorum is a macro (three votes + end-blocker); vote interleavings are C02's subject; the skyway store apart from the last observed nonce is not hashed (attestation records are not read by the explored handlers)",
+		"SaleQuorum is a macro (three votes + end-blocker); vote interleavings are C02's subject; the skyway store is not part of the state identity: attestation records are not read by the explored handlers, and the last observed nonces only number the events — the harness always votes cursor+1 (checked: harness-cursor), so states that differ only in the cursors have the same futures up to renumbering (a sale without effect therefore leads back to the state it started from)",
 	}
 
 	jobs := e.jobs()
@@ -752,7 +752,7 @@ func (e *env) cursor(ctx sdk.Context, chain string) uint64 {
 }
 
 func (e *env) hash(n *explore.Node) string {
-	return fmt.Sprintf("%s|%s|%d|%d|%d", n.Ghost.Key(), e.nodeDigest(n), e.cursor(n.Ctx, ref), e.cursor(n.Ctx, ref2), n.Ctx.BlockTime().Unix())
+	return fmt.Sprintf("%s|%s|%d", n.Ghost.Key(), e.nodeDigest(n), n.Ctx.BlockTime().Unix())
 }
 
 func (e *env) name(addr string) string {
@@ -1101,11 +1101,37 @@ func (e *env) ops(n *explore.Node) []explore.Op {
 	}
 
 	// --- sale reported by the bridge
-	sales := e.al.sales
+	type saleT struct {
+		saleP
+		c  *world.Actor
+		rd string
+	}
+	var saleOps []saleT
 	for _, c := range targets {
-		for _, sp := range sales {
+		for _, sp := range e.al.sales {
 			for _, rd := range rends {
-				c, amt, contract, chain, rd := c, sp.amt, sp.contract, sp.chain, rd
+				saleOps = append(saleOps, saleT{sp, c, rd})
+			}
+		}
+	}
+	// claims whose smart_contract_address is empty / blank, on every chain (also chains
+	// without any configured contract), for the first target a licence could be created for
+	blankTarget := targets[0]
+	for _, c := range targets {
+		if !w.App.AccountKeeper.HasAccount(n.Ctx, c.Addr) {
+			blankTarget = c
+			break
+		}
+	}
+	for _, ch := range chains {
+		for _, blank := range []string{"", "0x"} {
+			saleOps = append(saleOps, saleT{saleP{ch, 1, blank}, blankTarget, rLower})
+		}
+	}
+	for _, so := range saleOps {
+		{
+			{
+				c, amt, contract, chain, rd := so.c, so.amt, so.contract, so.chain, so.rd
 				add(fmt.Sprintf("SaleQuorum(%s,%s%s,%d,%s)", chain, c.Name, tag(rd), amt, contName[contract]), func(ctx *sdk.Context, g *ghost) *explore.Fail {
 					g.Nonce[chain]++
 					nonce := g.Nonce[chain]
